@@ -539,6 +539,7 @@ def r18_4(ctx, run, rule='R18.4'):
                 run.proved(rule, p, f'comparator[OrderedFloat::{canon(nm).split("::")[-1]}]', 'total order on f64 with NaN greatest and equal to itself, -0.0 == +0.0 (ordered-float contract)',
                            f"{t.get('file')}:{t.get('line')}")
     run.floor(rule, 'float comparators in the ordering cone', n_cmp, 3)
+    const_outcomes(ctx, run, rule, cone)
     # same-kind integer comparisons and the signed/unsigned cross cases
     b = f.bodies.get(ORDER_ROOTS[0])
     if b is not None:
@@ -590,6 +591,58 @@ def r18_4(ctx, run, rule='R18.4'):
                                     (run.proved if gv == want else run.violation)(rule, b.path, f'cross[{l},{r}]/negative', f'negative signed operand -> {want}' if gv == want else
                                                                                    f'when the Int64 operand is negative the result is {gv}, but a negative number is below every unsigned one: it must be {want}', f'{b.file}:{b.line}')
                             break
+
+
+def const_outcomes(ctx, run, rule, cone):
+    """Integer-vs-float helpers f(l: iN/uN, r: f64) -> Ordering: a path that returns a constant Ordering without looking at
+    the integer is right only if r is NaN (-> Less, NaN is the greatest number) or r lies outside the integer type's whole
+    range on the right side."""
+    f = ctx.facts
+    n = 0
+    for p in cone:
+        b = f.bodies[p]
+        if b.kind == 'Promoted' or b.argc != 2:
+            continue
+        ity = str(b.local_ty(1).get('s'))
+        if ity not in INT_RANGES or str(b.local_ty(2).get('s')) != 'f64' or not str(b.local_ty(0).get('s', '')).endswith('cmp::Ordering'):
+            continue
+        tmin, tmax = INT_RANGES[ity]
+        ps, _ = explore(b)
+        r_atom = ('init', 2, b.name_of(2))
+        for q in ps:
+            if q.end[0] != 'return':
+                continue
+            ret = deref_all(q.ret)
+            if not (agg_variant(ret) and ret[1][1].endswith('cmp::Ordering')):
+                continue
+            v = ret[1][2]
+            if any(s_[0] == 'init' and s_[1] == 1 for c in q.conds for s_ in subterms(c[0])):
+                continue     # the integer took part in the decision
+            n += 1
+            loc = f'{b.file}:{b.line}'
+            is_nan = any(c[0][0] == 'call' and called(c[0][1], 'f64::is_nan') and c[2] is True for c in q.conds)
+            lo, los, hi, his, nan = float_bounds(q.conds, r_atom)
+            d = f'constant[{v}]'
+            if is_nan:
+                (run.proved if v == 'Less' else run.violation)(rule, p, d + '/nan', 'NaN is greater than every integer' if v == 'Less' else
+                                                               f'for a NaN float the integer is reported {v}; NaN is the greatest number, it must be Less', loc)
+                continue
+            if v == 'Less':
+                ok = lo >= float(tmax + 1) or (lo > float(tmax))
+                why = f'r >= {lo!r} is above every {ity}'
+            elif v == 'Greater':
+                ok = hi < float(tmin) or (hi == float(tmin) and his)
+                why = f'r < {hi!r} is below every {ity}'
+            else:
+                ok = False
+                why = ''
+            if ok:
+                run.proved(rule, p, d, why, loc)
+            else:
+                run.violation(rule, p, d, f'the helper answers {v} without looking at the integer on a path where the float is only known to lie in '
+                              f'{"(" if los else "["}{lo!r}, {hi!r}{")" if his else "]"}: that interval contains values inside the range of {ity} [{tmin}, {tmax}], '
+                              f'for which the answer depends on the integer', loc)
+    return n
 
 
 def partial_cmp_none_handled(body, bb, t):
